@@ -6,7 +6,8 @@ From PFDL Require Import Base Syntax.
 From PFDL.Check Require Import CheckModel CheckProofsBase CheckProofsC16.
 
 (* ------------------------------------------------------------------------------ *)
-(* sub-statements the validator looks at: everything except bodies of parallel loops *)
+(* sub-statements the validator looks at: loop bodies, Passed, Failed at any depth, and the
+   task call that is the body of a parallel loop *)
 (* ------------------------------------------------------------------------------ *)
 Inductive visible_sub : stmt -> list nat -> stmt -> Prop :=
 | vs_here : forall s, visible_sub s [] s
@@ -14,6 +15,8 @@ Inductive visible_sub : stmt -> list nat -> stmt -> Prop :=
     nth_error body i = Some s1 -> visible_sub s1 rel s' -> visible_sub (SWhile e body) (i :: rel) s'
 | vs_count : forall v lim body i s1 rel s',
     nth_error body i = Some s1 -> visible_sub s1 rel s' -> visible_sub (SCount false v lim body) (i :: rel) s'
+| vs_parloop : forall v lim c,
+    visible_sub (SCount true v lim [SCall c]) [0] (SCall c)
 | vs_passed : forall e p f i s1 rel s',
     nth_error p i = Some s1 -> visible_sub s1 rel s' -> visible_sub (SCond e p f) (0 :: i :: rel) s'
 | vs_failed : forall e p f i s1 rel s',
@@ -41,11 +44,19 @@ Section Descent.
       split; [assumption|]. split.
       + subst es. apply incl_appl. eapply incl_tran; eassumption.
       + intro Hbb. subst b. apply andb_true_iff in Hbb. apply Hb'. apply Hbt. apply Hbb.
-    - cbn [check_stmt] in Hc.
-      destruct (forall_from_nth _ _ _ _ _ _ _ _ Hc H) as (b1 & es1 & Hf & Hi & Hbt). cbn in Hf.
+    - cbn [check_stmt] in Hc. apply band_ok in Hc.
+      destruct Hc as (x & e1 & y & e2 & H1 & H2 & Hb & Hes).
+      destruct (forall_from_nth _ _ _ _ _ _ _ _ H2 H) as (b1 & es1 & Hf & Hi & Hbt). cbn in Hf.
       destruct (IHHv _ _ _ Hf) as (b' & es' & Hc' & Hi' & Hb').
       exists b', es'. replace (pi ++ i :: rel) with ((pi ++ [i]) ++ rel) by (rewrite <- app_assoc; reflexivity).
-      split; [assumption|]. split; [eapply incl_tran; eassumption | auto].
+      split; [assumption|]. split.
+      + subst es. apply incl_appr. eapply incl_tran; eassumption.
+      + intro Hbb. subst b. apply andb_true_iff in Hbb. apply Hb'. apply Hbt. apply Hbb.
+    - cbn [check_stmt] in Hc. apply band_ok in Hc.
+      destruct Hc as (x & e1 & y & e2 & H1 & H2 & Hb & Hes).
+      exists y, e2. split; [exact H2|]. split.
+      + subst es. apply incl_appr. apply incl_refl.
+      + intro Hbb. subst b. apply andb_true_iff in Hbb. apply Hbb.
     - cbn [check_stmt] in Hc. apply band_ok in Hc.
       destruct Hc as (x & e1 & y & e2 & H1 & H2 & Hb & Hes).
       destruct (forall_from_nth _ _ _ _ _ _ _ _ H1 H) as (b1 & es1 & Hf & Hi & Hbt). cbn in Hf.
@@ -79,6 +90,7 @@ Section Descent.
       match s with
       | SWhile _ b => existsb visible_exists b
       | SCount false _ _ b => existsb visible_exists b
+      | SCount true _ _ [SCall c] => P (SCall c)
       | SCond _ p f => existsb visible_exists p || existsb visible_exists f
       | _ => false
       end.
@@ -107,9 +119,16 @@ Section Descent.
         { eapply existsb_block_false; [|exact Hv|exact H1].
           eapply Forall_impl; [|exact H]. intros a Ha j b1 e0 Hva Hca. eapply Ha; eassumption. }
         subst. reflexivity.
-      - destruct par; [discriminate|]. cbn [check_stmt] in Hc.
-        eapply existsb_block_false; [|exact Hv|exact Hc].
-        eapply Forall_impl; [|exact H]. intros a Ha j b1 e0 Hva Hca. eapply Ha; eassumption.
+      - destruct par; cbn [check_stmt] in Hc; apply band_ok in Hc;
+          destruct Hc as (x & e1 & y & e2 & H1 & H2 & Hb & Hes).
+        + destruct b as [|s0 [|s1 r]]; try discriminate; [|destruct s0; discriminate].
+          destruct s0; try discriminate.
+          assert (y = false) by (eapply (local (pi ++ [0]) (SCall c)); [exact Hv | exact H2]).
+          subst. apply andb_false_r.
+        + assert (y = false).
+          { eapply existsb_block_false; [|exact Hv|exact H2].
+            eapply Forall_impl; [|exact H]. intros a Ha j b1 e0 Hva Hca. eapply Ha; eassumption. }
+          subst. apply andb_false_r.
       - cbn [check_stmt] in Hc. apply band_ok in Hc.
         destruct Hc as (x & e1 & y & e2 & H1 & H2 & Hb & Hes).
         apply band_ok in H2. destruct H2 as (x2 & e21 & y2 & e22 & H21 & H22 & Hb2 & Hes2).
@@ -282,8 +301,11 @@ Section LocalFaults.
     f_bad_parloop s = true -> check_stmt E T pi s = Ok (b, es) -> b = false.
   Proof.
     intros pi s b es Hf Hc. destruct s; try discriminate. destruct par; [|discriminate].
-    cbn [f_bad_parloop check_stmt] in *. destruct (is_single_call body); [discriminate|].
-    inversion Hc. reflexivity.
+    cbn [f_bad_parloop check_stmt] in *. apply band_ok in Hc.
+    destruct Hc as (x & e1 & y & e2 & H1 & H2 & -> & _).
+    destruct body as [|s0 [|s1 r]]; try (inversion H2; apply andb_false_r).
+    - destruct s0; try discriminate; inversion H2; apply andb_false_r.
+    - destruct s0; inversion H2; apply andb_false_r.
   Qed.
 
   (* ---- parameters of services and calls ---- *)
@@ -312,6 +334,7 @@ Section LocalFaults.
   Proof.
     intros ti pi c b es x Hc Hin Hx. unfold check_task_call in Hc.
     destruct (has_key (c_name c) (e_tasks E)); [|inversion Hc; reflexivity].
+    destruct (task_reaches E (length (e_tasks E)) (c_name c) (td_name T)); [inversion Hc; reflexivity|].
     apply andthen_ok in Hc. destruct Hc as (x1 & e1 & H1 & [(Hx1 & Hb & _) | (Hx1 & e2 & H2 & _)]).
     - assumption.
     - subst x1. assert (true = false) by (eapply check_call_parameters_false_param; eassumption).
@@ -436,6 +459,7 @@ Section LocalFaults.
   Proof.
     intros ti pi c b es o Hc Hin Ht. unfold check_task_call in Hc.
     destruct (has_key (c_name c) (e_tasks E)); [|inversion Hc; reflexivity].
+    destruct (task_reaches E (length (e_tasks E)) (c_name c) (td_name T)); [inversion Hc; reflexivity|].
     apply andthen_ok in Hc. destruct Hc as (x1 & e1 & H1 & [(Hx1 & Hb & _) | (Hx1 & e2 & H2 & _)]).
     - assumption.
     - subst x1. assert (true = false) by (eapply check_call_parameters_false_out; eassumption).
@@ -480,6 +504,7 @@ Section LocalFaults.
   Proof.
     intros ti pi c b es Hw Hc. unfold wrong_arity in Hw. unfold check_task_call in Hc.
     destruct (has_key (c_name c) (e_tasks E)); [|inversion Hc; reflexivity].
+    destruct (task_reaches E (length (e_tasks E)) (c_name c) (td_name T)); [inversion Hc; reflexivity|].
     apply andthen_ok in Hc. destruct Hc as (x1 & e1 & H1 & [(Hx1 & Hb & _) | (Hx1 & e2 & H2 & _)]);
       [assumption|].
     unfold check_call_matches in H2.
@@ -973,4 +998,82 @@ Proof.
   apply (fault_somewhere_rejected (fun E _ => f_param (bad_literal_key E))).
   intros E T pi s b es H Hc. eapply (local_param_fault E T (bad_literal_key E)); [|exact H|exact Hc].
   intros. eapply bad_literal_key_false; eassumption.
+Qed.
+
+(* ---- F19 recursion, and F04 / F05 / F18 in a loop limit ---- *)
+Section RecursionAndLimits.
+  Variable E : env.
+  Variable T : tdef.
+
+  (* the called task exists and the calling task can be reached from it again *)
+  Definition recursive_call (c : call) : bool :=
+    has_key (c_name c) (e_tasks E) && task_reaches E (length (e_tasks E)) (c_name c) (td_name T).
+
+  Definition f_recursive_call (s : stmt) : bool :=
+    match s with
+    | SCall c => recursive_call c
+    | SParallel cs => existsb recursive_call cs
+    | _ => false
+    end.
+
+  Lemma recursive_call_false : forall ti pi c b es,
+    recursive_call c = true -> check_task_call E T ti pi c = Ok (b, es) -> b = false.
+  Proof.
+    intros ti pi c b es Hr Hc. unfold recursive_call in Hr. apply andb_true_iff in Hr. destruct Hr as [Hk Hr].
+    unfold check_task_call in Hc. rewrite Hk, Hr in Hc. inversion Hc. reflexivity.
+  Qed.
+
+  Lemma local_recursive_call : forall pi s b es,
+    f_recursive_call s = true -> check_stmt E T pi s = Ok (b, es) -> b = false.
+  Proof.
+    intros pi s b es Hf Hc. destruct s; try discriminate; cbn [f_recursive_call check_stmt] in *.
+    - eapply recursive_call_false; eassumption.
+    - apply existsb_exists in Hf. destruct Hf as (c & Hin & Hu).
+      eapply forall_from_false_at; [exact Hc | exact Hin|].
+      intros j b1 e1 H1; cbn beta in H1. eapply recursive_call_false; eassumption.
+  Qed.
+
+  (* the limit of a counting loop (parallel or not) does not resolve to a number: undeclared
+     variable, unknown attribute, attribute of another type *)
+  Definition f_bad_limit (s : stmt) : bool :=
+    match s with
+    | SCount _ _ (LimPath v es) _ => negb (expression_is_number E T (EPath v es))
+    | _ => false
+    end.
+
+  Lemma check_limit_false : forall c v es b e,
+    expression_is_number E T (EPath v es) = false ->
+    check_limit E T c (LimPath v es) = Ok (b, e) -> b = false.
+  Proof.
+    intros c v es b e Hn Hc. unfold check_limit in Hc. rewrite Hn in Hc.
+    apply andthen_ok in Hc. destruct Hc as (x & e1 & H1 & [(_ & Hb & _) | (_ & e2 & H2 & _)]); [assumption|].
+    inversion H2. reflexivity.
+  Qed.
+
+  Lemma local_bad_limit : forall pi s b es,
+    f_bad_limit s = true -> check_stmt E T pi s = Ok (b, es) -> b = false.
+  Proof.
+    intros pi s b es Hf Hc. destruct s; try discriminate. destruct lim as [n|v0 es0]; [discriminate|].
+    cbn [f_bad_limit] in Hf. apply negb_true_iff in Hf.
+    destruct par; cbn [check_stmt] in Hc; apply band_ok in Hc;
+      destruct Hc as (x & e1 & y & e2 & H1 & H2 & -> & _);
+      rewrite (check_limit_false _ _ _ _ _ Hf H1); reflexivity.
+  Qed.
+End RecursionAndLimits.
+
+(* F19 *) Definition has_fault_recursive_call : program -> bool :=
+  fault_somewhere (fun E T => f_recursive_call E T).
+(* F04/F05/F18 in a limit *) Definition has_fault_bad_limit : program -> bool :=
+  fault_somewhere (fun E T => f_bad_limit E T).
+
+Theorem recursive_call_rejected : forall p, has_fault_recursive_call p = true -> validate p <> Ok [].
+Proof.
+  apply (fault_somewhere_rejected (fun E T => f_recursive_call E T)).
+  intros. eapply local_recursive_call; eassumption.
+Qed.
+
+Theorem bad_limit_rejected : forall p, has_fault_bad_limit p = true -> validate p <> Ok [].
+Proof.
+  apply (fault_somewhere_rejected (fun E T => f_bad_limit E T)).
+  intros. eapply local_bad_limit; eassumption.
 Qed.
